@@ -428,12 +428,16 @@ def run(prop: str, tier: str, only=None) -> Result:
     specs = specs_for(max_n)
     # biggest trees first so that the chunks are balanced
     rnd = random_specs(n_rand, 7, 9, seed() * 1_000_003 + 606)
+    n_hist = 3 if tier == "quick" else 4
+    hst = gen.history_specs(specs_for(n_hist))  # trees reached by one change of a tree whose accessors had all been evaluated
+    big = gen.big_specs(seed() + 6, 12 if tier == "quick" else 60, lo=18, hi=40)  # size-dependent paths (long sibling runs / chains)
     total = Result(prop)
-    total.merge(parallel(_run_chunk, sorted(specs + rnd, key=len, reverse=True), prop, 120.0, prop=prop, chunks_per_proc=8))
+    total.merge(parallel(_run_chunk, sorted(specs + rnd + hst + big, key=len, reverse=True), prop, 120.0, prop=prop, chunks_per_proc=8))
     total.exhaustive = False  # the random trees are sampled; the part below the bound is exhaustive
     b = (
         f"every ordered forest with <= {max_n} nodes (distinct data / clone-rich labels / typed tree with kinds k1,k2; equal data under distinct ids <= 4 nodes) "
-        f"+ {n_rand} seeded random trees with 7..9 nodes over {{a,b,c,d}} (VERIF_SEED={seed()}); "
+        f"+ {n_rand} seeded random trees with 7..9 nodes over {{a,b,c,d}} (VERIF_SEED={seed()}) + {len(big)} seeded larger trees with 18..40 nodes (long sibling runs / chains / mixed) "
+        f"+ {len(hst)} histories (every tree of <= {n_hist} nodes: all accessors evaluated once, then one of remove / remove(keep_children) / move_to / add / remove_children / sort_children / deep copy; the traversals run on the resulting tree); "
         "every start node and the Tree object"
     )
     total.bounds["Node.iterator / Tree.iterator / __iter__"] = b + "; all 6 ordered IterMethods x add_self on/off; UNORDERED, RANDOM_ORDER on the tree"
